@@ -9,6 +9,7 @@ import CandidModel.Driver.Check
 import CandidModel.Driver.Bindgen
 import CandidModel.Driver.Rand
 import CandidModel.Driver.RustId
+import CandidModel.Driver.Native
 /-
   Line-protocol driver.  One request per line: `<op>\t<arg>\t<arg>…`; one answer per line:
   `<model answer>\t<spec answer>` (or `bad-op` for what no handler accepts — never a default).
@@ -16,7 +17,7 @@ import CandidModel.Driver.RustId
 open Candid Candid.Driver
 
 def handlers : List (String → List String → Option String) :=
-  [handleLeb, handlePrincipal, handleSubtype, handleWire, handleLabels, handleDe, handleText, handleCheck, handleBindgen, handleRand, handleRust]
+  [handleLeb, handlePrincipal, handleSubtype, handleWire, handleLabels, handleDe, handleText, handleCheck, handleBindgen, handleRand, handleRust, handleNative]
 
 def answer (line : String) : String :=
   match line.splitOn "\t" with
